@@ -1,6 +1,7 @@
 """C19 - unsatisfiable or malformed requests are refused with an error, never answered."""
 import random, sys
 from runtime import harness as H
+from props import _ded as D
 from runtime import t3_pack as T
 
 OTS = ["Partition", "Sums", "BinCount", "PartitionAndSumsTuple", "LargestSum", "SortedSums"]
@@ -39,5 +40,7 @@ def t3(rep, tier, seed):
 
 def run(rep, tier, seed):
     rep.level = "exploration"
-    rep.assume("A4", "A6", "A8")
+    rep.assume("A1", "A2", "A4", "A5", "A6", "A8")
+    D.run_contracts(rep, "C19", D.FIT, tier, with_lemmas=False)
     t3(rep, tier, seed)
+    D.link_falsifier(rep)
